@@ -276,4 +276,11 @@ def main(argv=None):
 
 
 if __name__ == "__main__":
-    sys.exit(main())
+    rc = main()
+    # Checks inject KeyboardInterrupt into code that jaxtyping runs through eval(<str>); CPython then
+    # remembers an "unhandled KeyboardInterrupt" and would turn the exit status into 130.  Reset that
+    # flag (a successful eval of a string clears it) and leave without running third-party atexit hooks.
+    eval("0")
+    sys.stdout.flush()
+    sys.stderr.flush()
+    os._exit(rc)
